@@ -117,6 +117,15 @@ func (d *devWorld) start(ch *kernel.Chooser) string {
 	if da.ExpiresIn != int(cfg.Lifetime/time.Second) || da.Interval != int(cfg.PollInterval/time.Second) {
 		d.viol("lifetime", "device_authorization", "%s: expires_in/interval %d/%d, configured %v/%v", desc, da.ExpiresIn, da.Interval, cfg.Lifetime, cfg.PollInterval)
 	}
+	// the user code shown to the user is the one the flow was stored under (the user approves by that code)
+	if dev := w.Store.Devices[da.DeviceCode]; dev != nil && dev.UserCode != da.UserCode {
+		d.viol("user-code", "device_authorization-not-stored", "%s: the response shows user code %q, the flow was stored under %q", desc, da.UserCode, dev.UserCode)
+	}
+	for _, j := range w.Store.JournalFor(r.Ex.ID) {
+		if j.Method == "StoreDeviceAuthorization" && j.Err != "" {
+			d.o.Probe("user-code-collisions")
+		}
+	}
 	// the flow belongs to the client that authenticated, whatever else the request body says
 	if dev := w.Store.Devices[da.DeviceCode]; dev != nil && dev.State.ClientID != p.claimedClient() {
 		d.viol("initiating-client", "device_authorization", "%s: the device code was stored for client %q although the request was authenticated as %q", desc, dev.State.ClientID, p.claimedClient())
@@ -142,13 +151,14 @@ func (d *devWorld) decide(ch *kernel.Chooser) string {
 		return "decide: user code unknown"
 	}
 	if ch.Bool(1, 4) {
-		d.w.Store.DenyDevice(m.code)
+		d.w.Store.DenyDevice(dev.Code)
 		m.denied = true
 		return "deny " + m.userCode
 	}
 	u := ch.Pick("u1", "u2")
 	if m.approvedBy == "" {
-		d.w.Store.ApproveDevice(m.code, u)
+		// the user approves what the device shows: the verification page looks the flow up by that user code
+		d.w.Store.ApproveDevice(dev.Code, u)
 		m.approvedBy = u
 	}
 	return "approve " + m.userCode + " by " + m.approvedBy
@@ -375,7 +385,7 @@ func RunC16(t *testing.T, spec kernel.Spec) *kernel.Outcome {
 		cfg2 := tape.Sub("cfg2")
 		caps := world.Caps{ClientCredentials: cfg2.Bool(1, 2), TokenExchange: cfg2.Bool(1, 2), Device: true, FromRequest: cfg2.Bool(1, 3)}
 		ucs := []op.UserCodeConfig{op.UserCodeBase20, op.UserCodeDigits, {CharSet: "äöüß€", CharAmount: 6, DashInterval: 2}, {CharSet: "AB", CharAmount: 5, DashInterval: 0},
-			{CharSet: "xyz", CharAmount: 7, DashInterval: 3}, {CharSet: "Q", CharAmount: 1, DashInterval: 1}, {CharSet: "0123456789abcdef", CharAmount: 12, DashInterval: 12}}
+			{CharSet: "xyz", CharAmount: 7, DashInterval: 3}, {CharSet: "Q", CharAmount: 1, DashInterval: 1}, {CharSet: "AB", CharAmount: 1, DashInterval: 0}, {CharSet: "ABC", CharAmount: 1, DashInterval: 0}, {CharSet: "0123456789abcdef", CharAmount: 12, DashInterval: 12}}
 		uc := ucs[cfg2.Int(len(ucs))]
 		w, err := world.NewStd(o, tape, world.StdOptions{Router: spec.Params["router"], ForceCaps: &caps, ForceConfig: func(c *op.Config) { c.DeviceAuthorization.UserCode = uc }})
 		if err != nil {
